@@ -66,13 +66,29 @@ class Tagged(object):
             self.fns[(kind,) + k] = fn
             return fn
 
+        # a third of the field resolvers are attached afterwards through Schema.register_resolver
+        later = {}
+
+        def resolver_for(t, f):
+            fn = tag("resolver", t, f)
+            if fn is not None and rng.random() < 0.33:
+                later[(t, f)] = fn
+                return None
+            return fn
+
         self.schema, _ = S.build_code_schema(
             ir,
-            resolver_for=lambda t, f: tag("resolver", t, f),
+            resolver_for=resolver_for,
             type_resolver_for=lambda t: tag("type", t),
             default_resolver_for=lambda t: tag("default", t) if rng.random() < 0.5 else None,
             subscription_resolver_for=lambda t, f: tag("sub", t, f) if t == ir.subscription else None,
         )
+        for (t, f), fn in later.items():
+            self.schema.register_resolver(t, f, fn)
+        self.registered_later = sorted(later)
+        # half of the sources carry a schema-wide default resolver
+        if rng.random() < 0.5:
+            self.schema.default_resolver = tag("default", "<schema>")
         self.sg = S.SchemaGen(rng)
         self.sg.s = ir
 
@@ -81,7 +97,7 @@ def identity_map(schema):
     """{element: ids of the callables / python names attached}"""
     import py_gql.schema as PS
 
-    out = {}
+    out = {("schema",): ("default_resolver", id(schema.default_resolver) if schema.default_resolver else None)}
     for name, t in schema.types.items():
         if canon.is_internal(name):
             continue
@@ -200,7 +216,7 @@ def check_state(ctx, state, witness, prefix):
     ids = identity_map(state.schema)
     for k, v in ids.items():
         if k in state.idmap and state.idmap[k] != v:
-            what = "type-resolver-or-default-resolver" if k[0] == "type" else "field-resolver"
+            what = "type-resolver-or-default-resolver" if k[0] == "type" else "schema-default-resolver" if k[0] == "schema" else "field-resolver"
             ctx.violation("%sidentity:%s-not-preserved" % (prefix, what), witness, "%r: %r -> %r" % (k, state.idmap[k], v))
             return False
     return True
@@ -339,6 +355,12 @@ def run(ctx):
                     if kind == "extend":
                         # the extension document is valid by construction against the current schema
                         ctx.violation("extend:valid-document-refused:%s" % type(e).__name__, witness, str(e)[:300])
+                        break
+                    from py_gql.exc import SchemaValidationError
+
+                    if not isinstance(e, SchemaValidationError):
+                        # only the validation of the *result* may refuse an operation
+                        ctx.violation("operation-raises:%s:%s" % (kind, type(e).__name__), witness, str(e)[:300])
                         break
                     # refusing to produce an invalid schema is allowed (e.g. a type left without fields)
                     step["refused"] = type(e).__name__
